@@ -162,6 +162,10 @@ class C09(BaseCheck):
         if names:
             a, b = r.choice(names)
             out.append((text[:a] + text[a].upper() + text[a + 1:], 'upcase-name', 'first letter of a tag/column name upper-cased at %d' % a))
+        for (a, b, inner_v3) in d.inner:
+            if inner_v3:
+                out.append((text[:a] + '2.0' + text[b:], 'inner-verskew-pre3',
+                            'nested grid header rewritten to 2.0 over a 3.0-only value in its rows (at %d)' % a))
         if d.has_v3:
             to = r.choice(['2.0', '2.0', '1.0'])
             out.append((channel.verskew(text, to), 'verskew-pre3', 'header rewritten to %s over a 3.0-only construct' % to))
